@@ -26,7 +26,7 @@ func init() {
 		runner.Register(p, runner.Scenario{Name: "reactive", Options: options, Body: func(c *runner.Ctx) { body(c, false) }})
 		runner.Register(p, runner.Scenario{Name: "reactive-stall", Options: stallOptions, Body: func(c *runner.Ctx) { body(c, true) }})
 		runner.Register(p, runner.Scenario{Name: "reactive-preempt", Options: func(string) simrt.Options {
-			return simrt.Options{MaxSteps: 150000, RotateMaps: true, ParkPermille: 8, MapPausePermille: 200}
+			return simrt.Options{MaxSteps: 150000, RotateMaps: true, ParkPermille: 8, MapPausePermille: 200, SpawnPausePermille: 30}
 		}, Body: func(c *runner.Ctx) { body(c, false) }})
 	}
 }
